@@ -150,15 +150,15 @@ def openMems (ro : Bool) : List (Nat × Inode) → Except RecErr (List (Nat × L
 
 /-- the tables the MANIFEST lists, read from the image (`revertToManifest` step 1 +
     `OpenTable`) -/
-def openTables (img : Image) : List (Nat × Nat) → Except RecErr (List RTable)
+def openTables (file : Path → Option Inode) : List (Nat × Nat) → Except RecErr (List RTable)
   | [] => .ok []
   | (id, lvl) :: rest =>
-    match img.file (.sst id) with
+    match file (.sst id) with
     | none => .error (.missingTable id)
     | some f =>
       match f.chunks with
       | [.table es] =>
-        match openTables img rest with
+        match openTables file rest with
         | .ok ts => .ok ({ id := id, level := lvl, ents := es } :: ts)
         | .error e => .error e
       | _ => .error (.badTable id)
@@ -192,11 +192,12 @@ def manifestRewriteOps (sets : List Chunk) : List FsOp :=
 
 def lastFid {α : Type} (l : List (Nat × α)) : Nat := (l.map (·.1)).foldl max 0
 
-/-- `badger.Open` of a directory image. `ro` = `Options.ReadOnly`. -/
-def recover (ro : Bool) (img : Image) : Except RecErr RState :=
+/-- `badger.Open` as a function of "what is in the file called p" (`file`) and a bound `B`
+    above every number used in a file name. `ro` = `Options.ReadOnly`. -/
+def recoverF (ro : Bool) (file : Path → Option Inode) (B : Nat) : Except RecErr RState :=
   -- 1. MANIFEST
   let mres : Except RecErr (List (Nat × Nat) × List FsOp) :=
-    match img.file .manifest with
+    match file .manifest with
     | none => if ro then .error .noManifestRO else .ok ([], manifestRewriteOps [])
     | some f =>
       match replayManifest f.chunks with
@@ -207,25 +208,26 @@ def recover (ro : Bool) (img : Image) : Except RecErr RState :=
   | .ok (tset, mops) =>
   -- 2. key registry
   let kops : List FsOp :=
-    if (img.file .keyRegistry).isSome ∨ ro then []
+    if (file .keyRegistry).isSome ∨ ro then []
     else [.create .keyRegistryRewrite, .append .keyRegistryRewrite .kreg,
           .rename .keyRegistryRewrite .keyRegistry, .syncDir]
   -- 3. memtables
-  match openMems ro img.mems with
+  let mems := listFiles file .mem B
+  match openMems ro mems with
   | .error e => .error e
   | .ok (imms, memOps) =>
-  let nextMem := lastFid img.mems + 1
+  let nextMem := lastFid mems + 1
   let newMemOps := if ro then [] else newLog (.mem nextMem)
   -- 4. tables: revertToManifest + OpenTable
-  match openTables img tset with
+  match openTables file tset with
   | .error e => .error e
   | .ok tables =>
-  let extra := (img.ssts.filter (fun x => (aget x.1 tset).isNone)).map (fun x => FsOp.unlink (.sst x.1))
+  let extra := ((listFiles file .sst B).filter (fun x => (aget x.1 tset).isNone)).map (fun x => FsOp.unlink (.sst x.1))
   let lvlOps := extra ++ [.syncDir]
   -- 5. oracle
   let mv := max (maxVer (imms.map (·.2)).flatten) (maxVer (tables.map (·.ents)).flatten)
   -- 6. value log
-  let vls := img.vlogs
+  let vls := listFiles file .vlog B
   let vmax := lastFid vls
   match openVlogs ro vmax vls with
   | .error e => .error e
@@ -236,5 +238,8 @@ def recover (ro : Bool) (img : Image) : Except RecErr RState :=
         vlogFid := vmax + 1,
         vlogs := vls.map (fun x => (x.1, x.2.chunks)),
         ops := mops ++ kops ++ memOps ++ newMemOps ++ lvlOps ++ vops ++ newV }
+
+/-- `badger.Open` of a directory image -/
+def recover (ro : Bool) (img : Image) : Except RecErr RState := recoverF ro img.file img.bound
 
 end Badger
